@@ -9,6 +9,17 @@ package main
 // Classes / groups:
 //   pair/...   : lib.GenPair build pairs through lib.Diff (oracle only)
 //   edits/...  : high-entropy builds, k localized edits per file, renames, duplications (oracle only)
+//   big/...    : one high-entropy file of 4..48 MiB (many wraps of the differ's 4 MiB + 2 blocks
+//                buffer), k edits of which the first one shifts all following data, positions early,
+//                random and on/around the wrap offsets, lengths up to > 4 MiB; in-memory pools
+//                (oracle only: "independent of file size and of whether an edit shifts ...")
+//   corpus/... : fixed inputs that failed on seeded faulty variants, at the start of every run
+//
+// Configuration dimension of every pair / edits / big case: where the signature of the old build
+// comes from - computed from the old files (pwr.ComputeSignature) or "stored": read back with
+// pwr.ReadSignature from the signature file that the previous push (WritePatch nothing -> old)
+// wrote, together with the container recorded in that file (what a client pushing against a
+// downloaded signature does).
 //   "ops"      : small block sizes (4..16), 256-letter alphabet, sources derived from an old file by
 //                edits / renames: exact op list vs the model (Exec/C11.v [mismatches_ops])
 //   "acct"     : makeOpsWriter's counters on arbitrary op lists and file sizes at the real 64 KiB
@@ -22,11 +33,15 @@ package main
 //   high-entropy file by k localized edits carries at most introduced + (2k+2)*64KiB data bytes.
 
 import (
+	"bytes"
+	"context"
 	"fmt"
 	"io"
 	"path/filepath"
 	"strings"
 
+	"github.com/itchio/lake"
+	"github.com/itchio/lake/pools/fspool"
 	"github.com/itchio/lake/tlc"
 	"github.com/itchio/savior/seeksource"
 	"github.com/itchio/wharf/pwr"
@@ -108,21 +123,158 @@ type c08Expect struct {
 	why   map[string]string
 }
 
-// c08CheckPair diffs old -> new and evaluates the oracle. expect may be nil.
-func c08CheckPair(c *Ctx, name string, old, nw *lib.Build, comp lib.Compression, expect *c08Expect) (obs map[string]interface{}, oracle string, err error) {
-	base := filepath.Join(c.Tmp, name)
-	defer removeAll(base)
-	oldDir, newDir := filepath.Join(base, "old"), filepath.Join(base, "new")
-	if err = old.WriteTo(oldDir); err != nil {
-		return
+// c08Cfg is the configuration of one diff.
+type c08Cfg struct {
+	comp lib.Compression
+	// where the signature of the old build comes from:
+	//   ""     computed from the old files (pwr.ComputeSignature)
+	//   "push" read back (pwr.ReadSignature) from the signature file that the previous push
+	//          (WritePatch nothing -> old) wrote
+	//   "sign" read back from a signature file written the way `butler sign` does
+	//          (header, container, pwr.ComputeSignatureToWriter)
+	stored   string
+	prevComp lib.Compression // compression of the stored signature file
+	mem      bool            // in-memory pools instead of directories (builds of plain files only)
+}
+
+func (g c08Cfg) sigName() string {
+	if g.stored != "" {
+		return "stored-" + g.stored + "(" + g.prevComp.String() + ")"
 	}
-	if err = nw.WriteTo(newDir); err != nil {
-		return
+	return "computed"
+}
+
+// c08MkCfg draws the configuration of case i for the given old build. The previous push of an old
+// build of more than 1 MiB does not run its (discarded) patch through a slow compressor setting.
+func c08MkCfg(c *Ctx, r *lib.Rng, i int, old *lib.Build) c08Cfg {
+	n := len(lib.Compressions)
+	g := c08Cfg{comp: lib.Compressions[(i+int(c.Seed))%n], prevComp: lib.Compressions[r.Intn(n)]}
+	g.stored = []string{"", "", "push", "sign"}[r.Intn(4)]
+	total := 0
+	for _, f := range old.Files() {
+		total += len(f.Data)
+	}
+	if total > c08MiB && g.stored == "push" && g.prevComp.Quality > 1 {
+		g.prevComp.Quality = 1
+	}
+	return g
+}
+
+// c08MemBuild: the container of a build of plain files and a maker of in-memory pools over it
+func c08MemBuild(b *lib.Build) (*tlc.Container, func() lake.Pool) {
+	var datas [][]byte
+	var paths []string
+	for _, f := range b.Files() {
+		datas = append(datas, f.Data)
+		paths = append(paths, f.Path)
+	}
+	mk := func() *lib.MemPool {
+		mp := lib.NewMemPool(datas)
+		for i, p := range paths {
+			mp.Container.Files[i].Path = p
+		}
+		for _, e := range b.Entries {
+			if e.Kind == "dir" {
+				mp.Container.Dirs = append(mp.Container.Dirs, &tlc.Dir{Path: e.Path, Mode: 0755})
+			}
+		}
+		return mp
+	}
+	return mk().Container, func() lake.Pool { return mk() }
+}
+
+// c08Diff runs pwr.DiffContext.WritePatch old -> new with the old signature obtained as cfg says.
+func c08Diff(oldC *tlc.Container, oldPool func() lake.Pool, newC *tlc.Container, newPool lake.Pool, cfg c08Cfg) (*lib.DiffResult, error) {
+	ctx := context.Background()
+	tc := oldC
+	var hashes []wsync.BlockHash
+	if cfg.stored != "" {
+		var sig bytes.Buffer
+		if cfg.stored == "push" {
+			prev := &pwr.DiffContext{Compression: cfg.prevComp.Settings(), Consumer: lib.Quiet, SourceContainer: oldC, Pool: oldPool(),
+				TargetContainer: &tlc.Container{}, TargetSignature: nil}
+			if err := prev.WritePatch(ctx, io.Discard, &sig); err != nil {
+				return nil, fmt.Errorf("previous push: %w", err)
+			}
+		} else {
+			raw := wire.NewWriteContext(&sig)
+			if err := raw.WriteMagic(pwr.SignatureMagic); err != nil {
+				return nil, err
+			}
+			if err := raw.WriteMessage(&pwr.SignatureHeader{Compression: cfg.prevComp.Settings()}); err != nil {
+				return nil, err
+			}
+			sw, err := pwr.CompressWire(raw, cfg.prevComp.Settings())
+			if err != nil {
+				return nil, err
+			}
+			if err := sw.WriteMessage(oldC); err != nil {
+				return nil, err
+			}
+			err = pwr.ComputeSignatureToWriter(ctx, oldC, oldPool(), lib.Quiet, func(h wsync.BlockHash) error {
+				return sw.WriteMessage(&pwr.BlockHash{WeakHash: h.WeakHash, StrongHash: h.StrongHash})
+			})
+			if err != nil {
+				return nil, fmt.Errorf("signing the old build: %w", err)
+			}
+			if err := sw.Close(); err != nil {
+				return nil, err
+			}
+		}
+		si, err := lib.ReadSig(sig.Bytes())
+		if err != nil {
+			return nil, fmt.Errorf("stored signature: %w", err)
+		}
+		tc, hashes = si.Container, si.Hashes
+	} else {
+		h, err := pwr.ComputeSignature(ctx, oldC, oldPool(), lib.Quiet)
+		if err != nil {
+			return nil, err
+		}
+		hashes = h
+	}
+	dctx := &pwr.DiffContext{Compression: cfg.comp.Settings(), Consumer: lib.Quiet, SourceContainer: newC, Pool: newPool,
+		TargetContainer: tc, TargetSignature: hashes}
+	var p, s bytes.Buffer
+	if err := dctx.WritePatch(ctx, &p, &s); err != nil {
+		return nil, err
+	}
+	return &lib.DiffResult{Patch: p.Bytes(), Sig: s.Bytes(), Fresh: dctx.FreshBytes, Reused: dctx.ReusedBytes, NewContainer: newC}, nil
+}
+
+// c08CheckPair diffs old -> new and evaluates the oracle. expect may be nil.
+func c08CheckPair(c *Ctx, name string, old, nw *lib.Build, cfg c08Cfg, expect *c08Expect) (obs map[string]interface{}, oracle string, err error) {
+	var oldC, newC *tlc.Container
+	var oldPool func() lake.Pool
+	var newPool lake.Pool
+	if cfg.mem {
+		oldC, oldPool = c08MemBuild(old)
+		var mk func() lake.Pool
+		newC, mk = c08MemBuild(nw)
+		newPool = mk()
+	} else {
+		base := filepath.Join(c.Tmp, name)
+		defer removeAll(base)
+		oldDir, newDir := filepath.Join(base, "old"), filepath.Join(base, "new")
+		if err = old.WriteTo(oldDir); err != nil {
+			return
+		}
+		if err = nw.WriteTo(newDir); err != nil {
+			return
+		}
+		if oldC, err = lib.Walk(oldDir); err != nil {
+			return
+		}
+		if newC, err = lib.Walk(newDir); err != nil {
+			return
+		}
+		oldPool = func() lake.Pool { return fspool.New(oldC, oldDir) }
+		newPool = fspool.New(newC, newDir)
 	}
 	var dr *lib.DiffResult
 	cls, msg := lib.Guard(func() error {
 		var e error
-		dr, e = lib.Diff(oldDir, newDir, comp, nil)
+		dr, e = c08Diff(oldC, oldPool, newC, newPool, cfg)
 		return e
 	})
 	obs = map[string]interface{}{"diff": cls}
@@ -216,8 +368,8 @@ func c08Pairs(c *Ctx, r *lib.Rng, n int) error {
 			nw = old.Clone()
 			rel = []string{"identical"}
 		}
-		comp := lib.Compressions[(i+int(c.Seed))%len(lib.Compressions)]
-		obs, oracle, err := c08CheckPair(c, fmt.Sprintf("c08p-%d", i), old, nw, comp, nil)
+		cfg := c08MkCfg(c, cr, i, old)
+		obs, oracle, err := c08CheckPair(c, fmt.Sprintf("c08p-%d", i), old, nw, cfg, nil)
 		if err != nil {
 			return err
 		}
@@ -230,7 +382,7 @@ func c08Pairs(c *Ctx, r *lib.Rng, n int) error {
 			cls = "pair/" + strings.SplitN(rel[0], ":", 2)[0]
 		}
 		c.Out.Emit(&lib.Case{Class: cls, Nontrivial: len(kinds) >= 1 && !kinds["identical"],
-			Input: map[string]interface{}{"old": old.Summary(), "new": nw.Summary(), "relations": rel, "compression": comp.String()},
+			Input: map[string]interface{}{"old": old.Summary(), "new": nw.Summary(), "relations": rel, "compression": cfg.comp.String(), "oldSignature": cfg.sigName()},
 			Obs:   obs, Oracle: oracle})
 	}
 	return nil
@@ -255,7 +407,16 @@ func c08Edit(r *lib.Rng, data []byte, bs int) (out []byte, introduced int, how s
 	if at < 0 {
 		at = 0
 	}
-	switch r.Intn(3) {
+	return c08EditAt(r, data, r.Intn(3), at, l)
+}
+
+// c08EditAt: kind 0 overwrites l bytes at offset at in place, 1 inserts l fresh bytes there, 2 deletes l bytes
+func c08EditAt(r *lib.Rng, data []byte, kind, at, l int) (out []byte, introduced int, how string) {
+	n := len(data)
+	if at > n {
+		at = n
+	}
+	switch kind {
 	case 0: // overwrite in place
 		end := at + l
 		if end > n {
@@ -265,14 +426,16 @@ func c08Edit(r *lib.Rng, data []byte, bs int) (out []byte, introduced int, how s
 		copy(out[at:end], r.Bytes(end-at))
 		return out, end - at, fmt.Sprintf("overwrite@%d+%d", at, end-at)
 	case 1:
-		out = append(append(append([]byte{}, data[:at]...), r.Bytes(l)...), data[at:]...)
+		out = make([]byte, 0, n+l)
+		out = append(append(append(out, data[:at]...), r.Bytes(l)...), data[at:]...)
 		return out, l, fmt.Sprintf("insert@%d+%d", at, l)
 	default:
 		end := at + l
 		if end > n {
 			end = n
 		}
-		out = append(append([]byte{}, data[:at]...), data[end:]...)
+		out = make([]byte, 0, n-(end-at))
+		out = append(append(out, data[:at]...), data[end:]...)
 		return out, 0, fmt.Sprintf("delete@%d+%d", at, end-at)
 	}
 }
@@ -329,16 +492,139 @@ func c08Edits(c *Ctx, r *lib.Rng, n int) error {
 			}
 			rel = append(rel, fmt.Sprintf("%s->%s size %d k=%d mode=%d %s", p, np, size, k, mode, strings.Join(hows, ",")))
 		}
-		comp := lib.Compressions[(i+int(c.Seed))%len(lib.Compressions)]
-		obs, oracle, err := c08CheckPair(c, fmt.Sprintf("c08e-%d", i), old, nw, comp, exp)
+		cfg := c08MkCfg(c, cr, i, old)
+		obs, oracle, err := c08CheckPair(c, fmt.Sprintf("c08e-%d", i), old, nw, cfg, exp)
 		if err != nil {
 			return err
 		}
 		c.Out.Emit(&lib.Case{Class: fmt.Sprintf("edits/k%d", maxK), Nontrivial: maxK > 0,
-			Input: map[string]interface{}{"files": rel, "old": old.Summary(), "new": nw.Summary(), "compression": comp.String()},
+			Input: map[string]interface{}{"files": rel, "old": old.Summary(), "new": nw.Summary(), "compression": cfg.comp.String(), "oldSignature": cfg.sigName()},
 			Obs:   obs, Oracle: oracle})
 	}
 	return nil
+}
+
+// ---------- big class: files spanning many wraps of the differ's buffer ----------
+
+// wsync.ComputeDiff works in a buffer of MaxDataOp + 2 blocks: while the source is block aligned
+// with the old file the buffer wraps every c08Wrap source bytes
+const c08Wrap = wsync.MaxDataOp + 2*lib.BS
+
+const c08MiB = 1 << 20
+
+// c08BigEdit: one edit of a big file. shifting: an insertion or deletion whose length is not a
+// multiple of the block size (all following data moves off the block grid). early: in the first
+// wrap of the buffer.
+func c08BigEdit(r *lib.Rng, data []byte, shifting, early bool) ([]byte, int, string) {
+	n := len(data)
+	kind := r.Intn(3)
+	l := []int{1, 7, 1000, lib.BS - 1, lib.BS, lib.BS + 1, 3*lib.BS + 5, r.Range(1, 2*lib.BS), r.Range(1, 2*lib.BS), wsync.MaxDataOp + r.Range(-lib.BS, 2*lib.BS)}[r.Intn(10)]
+	if shifting {
+		kind = 1 + r.Intn(2)
+		for l%lib.BS == 0 {
+			l = r.Range(1, 2*lib.BS)
+		}
+	}
+	var at int
+	switch {
+	case early:
+		at = []int{0, 1, 100000, lib.BS - 1, lib.BS, r.Intn(c08Wrap)}[r.Intn(6)]
+	case r.Chance(1, 3) && n > c08Wrap:
+		// on / around an offset where the buffer wraps (exact while nothing has shifted yet)
+		at = r.Range(1, n/c08Wrap)*c08Wrap + []int{-lib.BS - 1, -lib.BS, -1, 0, 1, lib.BS - 1, lib.BS}[r.Intn(7)]
+	default:
+		at = r.Intn(n + 1)
+	}
+	if at < 0 {
+		at = 0
+	}
+	return c08EditAt(r, data, kind, at, l)
+}
+
+var c08BigSizes = []int{c08Wrap, 10 * c08MiB, 24 * c08MiB, 28 * c08MiB, 36 * c08MiB, 44 * c08MiB}
+
+// c08BigCase diffs one big file after the given edits (in-memory pools).
+func c08BigCase(c *Ctx, name, class string, data, nd []byte, k, intro int, hows []string, renamed bool, cfg c08Cfg) error {
+	old, nw := &lib.Build{}, &lib.Build{}
+	p, np := "data/big.bin", "data/big.bin"
+	if renamed {
+		np = "moved/big.bin"
+	}
+	old.Put(lib.Entry{Path: p, Kind: "file", Data: data})
+	old.Put(lib.Entry{Path: "small.bin", Kind: "file", Data: data[:len(data)%1000]})
+	nw.Put(lib.Entry{Path: np, Kind: "file", Data: nd})
+	nw.Put(lib.Entry{Path: "small.bin", Kind: "file", Data: data[:len(data)%1000]})
+	exp := &c08Expect{bound: map[string]int64{}, why: map[string]string{}}
+	exp.bound[np] = int64(intro + (2*k+2)*lib.BS)
+	exp.why[np] = fmt.Sprintf("%d edits introducing %d bytes: %s", k, intro, strings.Join(hows, ","))
+	if k == 0 {
+		exp.bound[np], exp.why[np] = 0, "content of an old file"
+	}
+	cfg.mem = true
+	obs, oracle, err := c08CheckPair(c, name, old, nw, cfg, exp)
+	if err != nil {
+		return err
+	}
+	rel := fmt.Sprintf("%s->%s size %d k=%d %s", p, np, len(data), k, strings.Join(hows, ","))
+	c.Out.Emit(&lib.Case{Class: class, Nontrivial: k > 0,
+		Input: map[string]interface{}{"files": []string{rel}, "old": old.Summary(), "new": nw.Summary(), "compression": cfg.comp.String(), "oldSignature": cfg.sigName()},
+		Obs:   obs, Oracle: oracle})
+	return nil
+}
+
+func c08Big(c *Ctx, r *lib.Rng, n int) error {
+	for i := 0; i < n; i++ {
+		cr := r.Fork()
+		size := c08BigSizes[(i+int(c.Seed))%len(c08BigSizes)]
+		size += []int{0, 1, 12345, lib.BS - 1, cr.Intn(2 * lib.BS), -(size % c08Wrap)}[cr.Intn(6)]
+		data := cr.Bytes(size)
+		k := []int{1, 1, 2, 3}[cr.Intn(4)]
+		nd, intro := data, 0
+		var hows []string
+		for e := 0; e < k; e++ {
+			var in int
+			var how string
+			// three times in four the first edit shifts everything behind it off the block grid
+			nd, in, how = c08BigEdit(cr, nd, e == 0 && cr.Chance(3, 4), e == 0 && cr.Chance(1, 2))
+			intro += in
+			hows = append(hows, how)
+		}
+		renamed := cr.Chance(1, 3)
+		cfg := c08MkCfg(c, cr, i, &lib.Build{Entries: []lib.Entry{{Path: "big", Kind: "file", Data: data}}})
+		if err := c08BigCase(c, fmt.Sprintf("c08b-%d", i), fmt.Sprintf("big/k%d", k), data, nd, k, intro, hows, renamed, cfg); err != nil {
+			return err
+		}
+	}
+	return nil
+}
+
+// ---------- corpus: inputs that failed on seeded faulty variants ----------
+
+func c08Corpus(c *Ctx) error {
+	r := lib.NewRng(0xC08)
+	none := lib.Compressions[0]
+	// identical builds, file sizes 0, < 1 block, 1 block, 3 blocks, 5 blocks + tail, old signature read
+	// back from the signature file of the previous push (seeded C08-2: ShortSize of the last block of
+	// a file of k*64KiB bytes read back as 65536)
+	for _, stored := range []string{"push", "sign"} {
+		b := &lib.Build{}
+		for i, sz := range []int{5*lib.BS + 777, 3 * lib.BS, lib.BS, 99, 0} {
+			b.Put(lib.Entry{Path: fmt.Sprintf("%c/f%d.bin", 'a'+i, i), Kind: "file", Data: r.Bytes(sz)})
+		}
+		cfg := c08Cfg{comp: none, stored: stored, prevComp: none}
+		obs, oracle, err := c08CheckPair(c, "c08c-"+stored, b, b.Clone(), cfg, nil)
+		if err != nil {
+			return err
+		}
+		c.Out.Emit(&lib.Case{Class: "corpus/identical-stored-signature", Nontrivial: false,
+			Input: map[string]interface{}{"old": b.Summary(), "new": b.Summary(), "relations": []string{"identical"}, "compression": none.String(), "oldSignature": cfg.sigName()},
+			Obs:   obs, Oracle: oracle})
+	}
+	// one 1000-byte insertion at offset 100000 of a file of 24 MiB + 12345 bytes (seeded C08-1: the
+	// window was not carried over when the buffer wraps, one more block re-sent per wrap)
+	data := r.Bytes(24*c08MiB + 12345)
+	nd, intro, how := c08EditAt(r, data, 1, 100000, 1000)
+	return c08BigCase(c, "c08c-big", "corpus/big-shifting-insert", data, nd, 1, intro, []string{how}, false, c08Cfg{comp: none, prevComp: none})
 }
 
 // ---------- "ops" group: small block sizes, sources derived by edits ----------
@@ -538,6 +824,9 @@ func runC08(c *Ctx) error {
 		}
 		return c.N(quick, thorough)
 	}
+	if err := c08Corpus(c); err != nil {
+		return err
+	}
 	if err := c08Edits(c, c.Rng.Fork(), n(40, 700)); err != nil {
 		return err
 	}
@@ -547,5 +836,9 @@ func runC08(c *Ctx) error {
 	if err := c08SmallEdits(c, c.Rng.Fork(), n(400, 5000)); err != nil {
 		return err
 	}
-	return c08Acct(c, c.Rng.Fork(), n(400, 3000))
+	if err := c08Acct(c, c.Rng.Fork(), n(400, 3000)); err != nil {
+		return err
+	}
+	// last: its Rng fork leaves the streams of the other classes as they were
+	return c08Big(c, c.Rng.Fork(), n(12, 80))
 }
